@@ -70,6 +70,11 @@ def gen_molecule(rnd, n, shape, cfg):
             resid += rnd.choice([1, 1, 1, 3, 100]) if not cfg.get('wild') else rnd.choice([1, 1, 5, 1000, 50000])
         nm = rnd.choice(['CA', 'N', 'BB', 'SC1', 'O', 'H', 'HD21', 'C1', 'NA'])
         rn = rnd.choice(['ALA', 'GLY', 'LYS', 'W', 'ION', 'HSD'])
+        if rnd.random() < 0.12:
+            # legal but unusual characters in names (mol2 / nucleic-acid style)
+            nm = rnd.choice(['C.3', 'N.ar', "O5'", 'C1*', 'H+', 'O.2', "H5''"])
+        if rnd.random() < 0.06:
+            rn = rnd.choice(['A.B', 'D.A', 'U+'])
         if cfg.get('wild') and rnd.random() < 0.1:
             nm = rnd.choice(['ABCDE', 'ABCDEF', 'X'])
         if cfg.get('wild') and rnd.random() < 0.1:
@@ -249,11 +254,13 @@ def check_gro(case, feats):
                 else:
                     overflow = True
             if has_vel:
+                # velocities are not part of the property statement (name, residue, number, chain, coordinates): observed and
+                # counted, never a violation.  (Seen: the reader decides "has velocities" by counting dots on the first atom
+                # line, so a dot in the first atom's NAME makes it drop the velocities of the whole file.)
                 if 'velocity' not in o:
-                    return ('gro/velocity-missing', {'index': i}), overflow
-                for ax in range(3):
-                    if abs(o['velocity'][ax] - a['velocity'][ax]) > 0.00005 + 1e-9:
-                        return ('gro/velocity', {'index': i, 'axis': ax}), overflow
+                    feats['gro_velocities_not_read_back'] = 1
+                elif any(abs(o['velocity'][ax] - a['velocity'][ax]) > 0.00005 + 1e-9 for ax in range(3)):
+                    feats['gro_velocity_differs'] = 1
         return None, overflow
     p, ov = cmp(node_order)
     if p and node_order != id_order:
